@@ -507,7 +507,20 @@ func ParseContractFile(path, pkgPath string) (*ContractFile, error) {
 			if fc.Name == "" || strings.ContainsAny(fc.Name, " \t") {
 				return nil, fmt.Errorf("%s:%d: bad function name %q", path, rc.line, fc.Name)
 			}
-			cf.Funcs = append(cf.Funcs, fc)
+			// a second block for a function that already has one in this file adds clauses to it (the
+			// generated layout contracts of lnwire live in their own region of the file)
+			merged := false
+			if !fc.Extern {
+				for _, o := range cf.Funcs {
+					if !o.Extern && o.Name == fc.Name && o.Recv == fc.Recv {
+						fc, merged = o, true
+						break
+					}
+				}
+			}
+			if !merged {
+				cf.Funcs = append(cf.Funcs, fc)
+			}
 			cur, curLemma = fc, nil
 			continue
 		}
